@@ -8,7 +8,7 @@ virtual clock) and the model (vm_compute) on the same schedules - an exhaustive 
 and compares what is observable after every action: the status of every caller, the cache content in eviction order with
 expiry times, the keys with a load in flight, the calls of the load function and the clock.
 
-The model has a `shield` switch.  `shield = false` is the code as it stands in /repo at the time of writing (lookups await
+The model has a `shield` switch.  `shield = false` is the code before fixes/C26.diff (committed to /repo as 2caecb82a; lookups await
 the shared load task directly, so asyncio's rule "cancelling a task cancels the future it awaits" kills the load and fails
 every other lookup waiting for it: theorem C26_unshielded_refuted).  `shield = true` is the code after fixes/C26.diff, which
 is what the property theorems and this check target.
